@@ -5,6 +5,7 @@
 import Rl2tp.Driver.Ops
 import Rl2tp.Spec.Hide
 import Rl2tp.Spec.Message
+import Rl2tp.Spec.Encode
 namespace Rl2tp.Driver
 open Rl2tp.Text
 
@@ -40,6 +41,18 @@ def specRun (f : List String) : Option String :=
     some (match Spec.parsePayload (← u16? t) (← unhex b) with
       | some a => renderAvp a
       | none => "!")
+  | ["enc", p, m] => do
+    -- within the wire limits (each AVP ≤ 1023, control message ≤ 65535) the octets are the specified ones
+    let p ← unhex p
+    let m ← parseMsg m
+    let fits := match m with
+      | .control c => c.avps.all (fun a => (Spec.encodeAvp a).length ≤ 1023) && (Spec.encodeControl c).length ≤ 65535
+      | .data _ => true
+    some (if fits then "ok " ++ hex (p ++ Spec.encode m) else "panic")
+  | ["enca", p, a] => do
+    let p ← unhex p
+    let a ← parseAvp a
+    some (if (Spec.encodeAvp a).length ≤ 1023 then "ok " ++ hex (p ++ Spec.encodeAvp a) else "panic")
   | ["utf8", b] => do some (if Spec.Utf8.valid (← unhex b) then "1" else "0")
   | ["reveal", a, s, rv] => do
     -- RFC 2661 §4.3 decryption (`Spec.Hide.decrypted`), then the format table on the announced octets
